@@ -427,7 +427,12 @@ var fieldRe = []string{"version", "hash_slot", "records", "format", "chunks", "s
 
 // perturbText returns a variant of the canonical document and a label.
 func perturbText(r *rand.Rand, b []byte) ([]byte, string) {
+	// perturbations that survive the strict decoder and validation (only the canonical-form
+	// check rejects them) get half of the weight
 	k := r.IntN(22)
+	if r.IntN(2) == 0 {
+		k = []int{0, 0, 1, 1, 2, 6, 7, 8, 8, 15}[r.IntN(10)]
+	}
 	switch k {
 	case 0:
 		ps := structuralPositions(b)
